@@ -1,5 +1,6 @@
 // C12 correspondence harness: the same workload policy state (tiers + profiles,
-// rules with protocol / not-protocol criteria) and the same flow are evaluated by
+// rules with protocol / not-protocol criteria and literal IPv4 CIDR matches, positive and
+// negated, on both legs) and the same flow are evaluated by
 //
 //	alp: the REAL app-policy checker (checker.Evaluate),
 //	bpf: the REAL BPF policy-program builder + the eBPF interpreter of C11,
@@ -47,6 +48,39 @@ func (idProvider) GetNoAlloc(name string) uint64 { return 0 }
 type cRule struct {
 	Act       string // allow deny pass next-tier log
 	Pr, NotPr string // "" or number or name
+	// literal IPv4 CIDRs, encoded <8 hex digits>_<prefix length>
+	Src, NotSrc, Dst, NotDst []string
+}
+
+func (r *cRule) hasNets() bool { return len(r.Src)+len(r.NotSrc)+len(r.Dst)+len(r.NotDst) > 0 }
+
+// cidrStr turns the encoded CIDR into the API string (a.b.c.d/n).
+func cidrStr(e string) string {
+	f := strings.Split(e, "_")
+	v, _ := strconv.ParseUint(f[0], 16, 32)
+	return fmt.Sprintf("%d.%d.%d.%d/%s", byte(v>>24), byte(v>>16), byte(v>>8), byte(v), f[1])
+}
+
+func cidrStrs(es []string) []string {
+	var out []string
+	for _, e := range es {
+		out = append(out, cidrStr(e))
+	}
+	return out
+}
+
+func cNetsS(es []string) string {
+	if len(es) == 0 {
+		return "x"
+	}
+	return strings.Join(es, "+")
+}
+
+func cParseNetsS(s string) []string {
+	if s == "x" {
+		return nil
+	}
+	return strings.Split(s, "+")
 }
 
 type cTier struct {
@@ -65,6 +99,7 @@ func kindOf(staged bool) string {
 }
 
 type cCfg struct {
+	Src, Dst uint32 // flow addresses (default 10.0.0.1 -> 10.0.0.2)
 	Proto    int
 	Tiers    []cTier
 	Profiles [][]cRule
@@ -86,7 +121,11 @@ func rulesS(rs []cRule) string {
 		if np == "" {
 			np = "x"
 		}
-		out = append(out, actCode[r.Act]+"."+pr+"."+np)
+		tok := actCode[r.Act] + "." + pr + "." + np
+		if r.hasNets() {
+			tok += "." + cNetsS(r.Src) + "." + cNetsS(r.NotSrc) + "." + cNetsS(r.Dst) + "." + cNetsS(r.NotDst)
+		}
+		out = append(out, tok)
 	}
 	return strings.Join(out, ",")
 }
@@ -118,8 +157,13 @@ func (c *cCfg) line() string {
 	if len(ps) > 0 {
 		f = strings.Join(ps, "|")
 	}
-	return fmt.Sprintf("chk p=%d t=%s f=%s", c.Proto, t, f)
+	if c.Src == defSrc && c.Dst == defDst {
+		return fmt.Sprintf("chk p=%d t=%s f=%s", c.Proto, t, f)
+	}
+	return fmt.Sprintf("chk p=%d s=%08x d=%08x t=%s f=%s", c.Proto, c.Src, c.Dst, t, f)
 }
+
+const defSrc, defDst = 0x0a000001, 0x0a000002
 
 func parseRulesS(s string) []cRule {
 	if s == "_" {
@@ -128,7 +172,7 @@ func parseRulesS(s string) []cRule {
 	var out []cRule
 	for _, t := range strings.Split(s, ",") {
 		f := strings.Split(t, ".")
-		if len(f) != 3 || codeAct[f[0]] == "" {
+		if (len(f) != 3 && len(f) != 7) || codeAct[f[0]] == "" {
 			panic("bad rule " + t)
 		}
 		r := cRule{Act: codeAct[f[0]]}
@@ -138,6 +182,9 @@ func parseRulesS(s string) []cRule {
 		if f[2] != "x" {
 			r.NotPr = f[2]
 		}
+		if len(f) == 7 {
+			r.Src, r.NotSrc, r.Dst, r.NotDst = cParseNetsS(f[3]), cParseNetsS(f[4]), cParseNetsS(f[5]), cParseNetsS(f[6])
+		}
 		out = append(out, r)
 	}
 	return out
@@ -145,11 +192,17 @@ func parseRulesS(s string) []cRule {
 
 func parseLine(op string) *cCfg {
 	w := strings.Fields(op)
-	if len(w) != 4 || w[0] != "chk" {
+	if (len(w) != 4 && len(w) != 6) || w[0] != "chk" {
 		return nil
 	}
-	c := &cCfg{}
+	c := &cCfg{Src: defSrc, Dst: defDst}
 	c.Proto, _ = strconv.Atoi(strings.TrimPrefix(w[1], "p="))
+	if len(w) == 6 {
+		sv, _ := strconv.ParseUint(strings.TrimPrefix(w[2], "s="), 16, 32)
+		dv, _ := strconv.ParseUint(strings.TrimPrefix(w[3], "d="), 16, 32)
+		c.Src, c.Dst = uint32(sv), uint32(dv)
+		w = []string{w[0], w[1], w[4], w[5]}
+	}
 	t := strings.TrimPrefix(w[2], "t=")
 	if t != "-" {
 		for _, ts := range strings.Split(t, "|") {
@@ -185,7 +238,8 @@ func toProtoP(s string) *proto.Protocol {
 func protoRules(rs []cRule) []*proto.Rule {
 	var out []*proto.Rule
 	for _, r := range rs {
-		out = append(out, &proto.Rule{Action: r.Act, Protocol: toProtoP(r.Pr), NotProtocol: toProtoP(r.NotPr)})
+		out = append(out, &proto.Rule{Action: r.Act, Protocol: toProtoP(r.Pr), NotProtocol: toProtoP(r.NotPr),
+			SrcNet: cidrStrs(r.Src), NotSrcNet: cidrStrs(r.NotSrc), DstNet: cidrStrs(r.Dst), NotDstNet: cidrStrs(r.NotDst)})
 	}
 	return out
 }
@@ -203,10 +257,15 @@ func (c *cCfg) hasProfilePass() bool {
 
 // ---- alp: the real app-policy checker ------------------------------------------------
 
-type flow struct{ proto int }
+type flow struct {
+	proto    int
+	src, dst uint32
+}
 
-func (f flow) GetSourceIP() net.IP                  { return net.ParseIP("10.0.0.1") }
-func (f flow) GetDestIP() net.IP                    { return net.ParseIP("10.0.0.2") }
+func ip4(v uint32) net.IP { return net.IPv4(byte(v>>24), byte(v>>16), byte(v>>8), byte(v)) }
+
+func (f flow) GetSourceIP() net.IP                  { return ip4(f.src) }
+func (f flow) GetDestIP() net.IP                    { return ip4(f.dst) }
 func (f flow) GetSourcePort() int                   { return 1234 }
 func (f flow) GetDestPort() int                     { return 80 }
 func (f flow) GetProtocol() int                     { return f.proto }
@@ -242,8 +301,8 @@ func alpVerdict(c *cCfg) string {
 	}
 	// the verdict is the status code of the real checkTiers (via the export hook); the public
 	// Evaluate is run as well: it must not fail where checkTiers reached a verdict
-	code := checker.VerifCheckStore(checker.EnforcedOnly, store, ep, rules.RuleDirIngress, flow{c.Proto})
-	_, err := checker.Evaluate(checker.EnforcedOnly, rules.RuleDirIngress, store, ep, flow{c.Proto})
+	code := checker.VerifCheckStore(checker.EnforcedOnly, store, ep, rules.RuleDirIngress, flow{c.Proto, c.Src, c.Dst})
+	_, err := checker.Evaluate(checker.EnforcedOnly, rules.RuleDirIngress, store, ep, flow{c.Proto, c.Src, c.Dst})
 	switch code {
 	case checker.OK:
 		if err != nil {
@@ -315,6 +374,12 @@ func bpfVerdict(c *cCfg) string {
 	}
 	st := make([]byte, stateSize)
 	st[104] = byte(c.Proto)
+	// addresses in network byte order: ip_src at 8, pre-NAT dst at 40, post-NAT dst at 56
+	for i := 0; i < 4; i++ {
+		st[8+i] = byte(c.Src >> (24 - 8*i))
+		st[40+i] = byte(c.Dst >> (24 - 8*i))
+		st[56+i] = byte(c.Dst >> (24 - 8*i))
+	}
 	e := &env{c: g, stateOK: true, tailOK: true, polTailOK: true}
 	o := runChain(e, progs, st)
 	if o.kind == "tail" && o.target == 5 {
@@ -345,10 +410,13 @@ var protoNames = map[string]int{"tcp": 6, "udp": 17, "icmp": 1, "sctp": 132, "ic
 
 type iptState struct {
 	chains map[string]*generictables.Chain
-	mark   uint32
-	proto  int
-	unsup  string
+	mark     uint32
+	proto    int
+	src, dst uint32
+	unsup    string
 }
+
+var netRe = regexp.MustCompile(`^(! )?--(source|destination) (\d+)\.(\d+)\.(\d+)\.(\d+)/(\d+)$`)
 
 // matches evaluates a rendered match fragment (a conjunction of the few criteria kinds that can
 // occur for protocol-only rules on a NEW connection).
@@ -363,7 +431,9 @@ func (s *iptState) matches(frag string) bool {
 	cur := ""
 	for i := 0; i < len(toks); i++ {
 		t := toks[i]
-		starts := t == "-m" || (t == "-p" && cur != "!") || (t == "!" && i+1 < len(toks) && toks[i+1] == "-p")
+		isNet := func(x string) bool { return x == "--source" || x == "--destination" }
+		starts := t == "-m" || ((t == "-p" || isNet(t)) && cur != "!") ||
+			(t == "!" && i+1 < len(toks) && (toks[i+1] == "-p" || isNet(toks[i+1])))
 		if starts && cur != "" {
 			crit = append(crit, cur)
 			cur = ""
@@ -398,6 +468,28 @@ func (s *iptState) matches(frag string) bool {
 				}
 			}
 			ok := s.proto == n
+			if m[1] != "" {
+				ok = !ok
+			}
+			if !ok {
+				return false
+			}
+		} else if m := netRe.FindStringSubmatch(c); m != nil {
+			var a uint32
+			for k := 3; k <= 6; k++ {
+				b, _ := strconv.Atoi(m[k])
+				a = a<<8 | uint32(b)
+			}
+			pl, _ := strconv.Atoi(m[7])
+			var mask uint32
+			if pl > 0 {
+				mask = ^uint32(0) << (32 - pl)
+			}
+			ip := s.src
+			if m[2] == "destination" {
+				ip = s.dst
+			}
+			ok := ip&mask == a&mask
 			if m[1] != "" {
 				ok = !ok
 			}
@@ -468,7 +560,7 @@ func (s *iptState) run(name string, depth int) string {
 }
 
 func iptVerdict(c *cCfg, dump bool) string {
-	s := &iptState{chains: map[string]*generictables.Chain{}, proto: c.Proto}
+	s := &iptState{chains: map[string]*generictables.Chain{}, proto: c.Proto, src: c.Src, dst: c.Dst}
 	add := func(chs ...*generictables.Chain) {
 		for _, ch := range chs {
 			if ch != nil {
@@ -577,7 +669,48 @@ func exec(h *rt.H, op string) string {
 	return fmt.Sprintf("alp=%s bpf=%s ipt=%s", alp, bpf, ipt)
 }
 
-func genRules(h *rt.H, profile bool, passP float64) []cRule {
+// CIDR pool of a case (encoded) and the flow addresses around their boundaries.
+var cidrPool = []string{"0a000000_8", "0a010000_16", "0a010200_24", "0a010203_32", "0a800000_9", "c0a80000_16",
+	"ac100000_12", "0a000002_32", "0a000000_30", "00000000_0", "80000000_1", "0a010280_25"}
+
+func pickNets(h *rt.H, pool []string, allowAll bool) []string {
+	n := 1 + h.Intn(2)
+	var out []string
+	for i := 0; i < n; i++ {
+		c := rt.Pick(h, pool)
+		if c == "00000000_0" && !allowAll {
+			continue
+		}
+		out = append(out, c)
+	}
+	return out
+}
+
+// boundaryAddrs: first/last address of the CIDR, the addresses just outside, one inside.
+func boundaryAddrs(h *rt.H, e string) []uint32 {
+	f := strings.Split(e, "_")
+	v, _ := strconv.ParseUint(f[0], 16, 32)
+	pl, _ := strconv.Atoi(f[1])
+	var size uint64 = 1 << (32 - uint(pl))
+	first := uint32(v)
+	last := uint32(uint64(first) + size - 1)
+	out := []uint32{first, last, first - 1, last + 1}
+	if size > 2 {
+		out = append(out, uint32(uint64(first)+1+uint64(h.Intn(int(min64(size-2, 1<<20))))))
+	}
+	return out
+}
+
+func min64(a, b uint64) uint64 {
+	if a < b {
+		return a
+	}
+	return b
+}
+
+func genRules(h *rt.H, profile bool, passP float64) []cRule { return genRulesN(h, profile, passP, nil) }
+
+func genRulesN(h *rt.H, profile bool, passP float64, pool []string) []cRule {
 	n := h.Intn(4)
 	var out []cRule
 	for i := 0; i < n; i++ {
@@ -600,13 +733,35 @@ func genRules(h *rt.H, profile bool, passP float64) []cRule {
 				r.Pr, r.NotPr = rt.Pick(h, protos), rt.Pick(h, protos)
 			}
 		}
+		if pool != nil && h.Chance(0.6) {
+			if h.Chance(0.35) {
+				r.Src = pickNets(h, pool, true)
+			}
+			if h.Chance(0.35) {
+				r.NotSrc = pickNets(h, pool, h.Chance(0.1))
+			}
+			if h.Chance(0.35) {
+				r.Dst = pickNets(h, pool, true)
+			}
+			if h.Chance(0.35) {
+				r.NotDst = pickNets(h, pool, h.Chance(0.1))
+			}
+		}
 		out = append(out, r)
 	}
 	return out
 }
 
 func genCase(h *rt.H) []string {
-	c := &cCfg{}
+	c := &cCfg{Src: defSrc, Dst: defDst}
+	// two thirds of the cases carry literal CIDR matches (positive and negated, both legs)
+	var pool []string
+	if h.Chance(0.66) {
+		k := 2 + h.Intn(3)
+		for i := 0; i < k; i++ {
+			pool = append(pool, rt.Pick(h, cidrPool))
+		}
+	}
 	passP := 0.0
 	if h.Chance(0.25) {
 		passP = 0.4
@@ -618,24 +773,45 @@ func genCase(h *rt.H) []string {
 		np := 1 + h.Intn(3)
 		allStaged := stagedP > 0 && h.Chance(0.3) // a tier holding only staged policies, in any position
 		for j := 0; j < np; j++ {
-			t.Policies = append(t.Policies, genRules(h, false, 0))
+			t.Policies = append(t.Policies, genRulesN(h, false, 0, pool))
 			t.Staged = append(t.Staged, allStaged || h.Chance(stagedP))
 		}
 		c.Tiers = append(c.Tiers, t)
 	}
 	np := h.Intn(4)
 	for i := 0; i < np; i++ {
-		c.Profiles = append(c.Profiles, genRules(h, true, passP))
+		c.Profiles = append(c.Profiles, genRulesN(h, true, passP, pool))
 	}
 	var ops []string
+	// flow addresses: the defaults, or (with CIDRs) source and destination chosen independently
+	// around the boundaries of the case's CIDRs
+	addrs := [][2]uint32{{defSrc, defDst}}
+	if pool != nil {
+		var cand []uint32
+		for _, e := range pool {
+			cand = append(cand, boundaryAddrs(h, e)...)
+		}
+		cand = append(cand, defSrc, defDst)
+		addrs = nil
+		for i := 0; i < 3; i++ {
+			addrs = append(addrs, [2]uint32{rt.Pick(h, cand), rt.Pick(h, cand)})
+		}
+	}
 	for _, p := range []int{6, 17, 1, 132, 47} {
 		if h.Chance(0.6) {
 			c.Proto = p
-			ops = append(ops, c.line())
+			for _, a := range addrs {
+				if len(addrs) > 1 && !h.Chance(0.6) {
+					continue
+				}
+				c.Src, c.Dst = a[0], a[1]
+				ops = append(ops, c.line())
+			}
 		}
 	}
 	if len(ops) == 0 {
 		c.Proto = 6
+		c.Src, c.Dst = addrs[0][0], addrs[0][1]
 		ops = append(ops, c.line())
 	}
 	return ops
@@ -646,7 +822,8 @@ func main() {
 	defer h.Close()
 	renderer = rules.NewRenderer(rcfg, false)
 	h.Rule = "case = one workload policy state (0..3 tiers × 1..3 policies × 0..3 rules, 0..3 profiles × 0..3 rules; actions allow/deny/pass/next-tier/log, " +
-		"profile pass in a quarter of the cases; criteria protocol / not-protocol by number or name) evaluated for 1..5 flow protocols by the real " +
+		"profile pass in a quarter of the cases; criteria protocol / not-protocol by number or name and, in two thirds of the cases, literal IPv4 CIDRs " +
+		"(source / not-source / destination / not-destination, 1..2 each, incl. /0, /32 and nested ones) with flow addresses chosen independently for source and destination around the CIDR boundaries) evaluated for 1..5 flow protocols x up to 3 address pairs by the real " +
 		"app-policy checker, the real BPF builder+interpreter and the real iptables renderer+chain evaluator; non-trivial = the case reaches both verdicts or has a profile pass rule"
 	runCase := func(ops []string, tag string) {
 		h.Case(tag)
